@@ -356,6 +356,9 @@ class Report:
 
     def finish(self):
         evid, replays = EVID, REPLAYS
+        if os.environ.get("VERIF_REPLAY_RUN"):   # re-exploration on behalf of `--replay`: keep the real evidence untouched
+            evid = os.path.join(WORK, "replay_run", "evidence")
+            replays = os.path.join(WORK, "replay_run", "replays")
         if SELFTEST:      # a selftest run must not touch the evidence of the real check
             evid = os.path.join(WORK, "selftest", "evidence_%s" % SELFTEST)
             replays = os.path.join(WORK, "selftest", "replays_%s" % SELFTEST)
@@ -380,7 +383,7 @@ class Report:
             nrep += 1
             h = hashlib.sha1(key.encode()).hexdigest()[:10]
             path = os.path.join(rd, "%s_%s.json" % (self.tier, h))
-            json.dump({"property": self.prop, "signature": sig, "replay": replay}, open(path, "w"), indent=1)
+            json.dump({"property": self.prop, "tier": self.tier, "seed": self.seed, "signature": sig, "replay": replay}, open(path, "w"), indent=1)
             print("VIOLATION property=%s replay=%s" % (self.prop, path))
             log("  " + key[:400])
         cov = dict(self.cov)
